@@ -344,6 +344,8 @@ class Check(Property):
         # other magnitude types: the same helpers on float, Decimal and uncertain magnitudes agree numerically with the exact answers
         if mult and want is not None and Fraction(c["a"]["m"]) != 0 and all(Fraction(e).denominator == 1 for _, e in c["a"]["u"]):
             v.extend(self.oracle_types(P, c, want))
+        if mult and want is not None and all(Fraction(e).denominator == 1 for _, e in c["a"]["u"]):
+            v.extend(self.oracle_arrays(c, tag))
         # passthrough
         for special in (float("nan"), float("inf"), float("-inf"), 0, 0.0, Fraction(0)):
             qs = u.Quantity(special, q.units)
@@ -357,6 +359,35 @@ class Check(Property):
             except Exception as exc:  # noqa: BLE001
                 if mult:
                     v.append(f"{tag}: to_compact of magnitude {special!r} raised {type(exc).__name__}")
+        return v
+
+    def oracle_arrays(self, c, tag):
+        """ndarray magnitudes (float and integer dtype): an in-place twin leaves what the helper returns, or refuses; it never
+        leaves other numbers (an integer array cannot hold a rescaled value)"""
+        import numpy as np
+        v = []
+        uf = regs.ureg("float")
+        try:
+            units = uf.Unit(regs.pint_uc(uf, c["a"]["u"], "float", canonical=True))
+        except Exception:  # noqa: BLE001
+            return v
+        for arr in (np.array([1.0, 2.5, 1500.0]), np.array([1, 2, 1500]), np.array([7, 999, 12345], dtype=np.int64)):
+            for h in ("to_root_units", "to_base_units", "to_reduced_units"):
+                with warnings.catch_warnings():
+                    warnings.simplefilter("ignore")
+                    try:
+                        r = getattr(uf.Quantity(arr.copy(), units), h)()
+                    except Exception:  # noqa: BLE001
+                        continue
+                    q2 = uf.Quantity(arr.copy(), units)
+                    try:
+                        getattr(q2, "i" + h)()
+                    except Exception:  # noqa: BLE001
+                        continue                    # refusing (e.g. a casting error for an integer array) is acceptable
+                    ok = q2.units == r.units and np.allclose(np.asarray(q2.magnitude, dtype=float), np.asarray(r.magnitude, dtype=float),
+                                                             rtol=1e-9, atol=0)
+                    if not ok:
+                        v.append(f"{tag}: i{h} on the {arr.dtype} array {arr.tolist()} leaves {q2!r}, {h} returns {r!r}")
         return v
 
     def oracle_types(self, P, c, want):
